@@ -191,6 +191,20 @@ class Replayer:
                     mods[e["m"]] = mods[e["m"]].to(TD[e["d"]])
                     modinfo[e["m"]]["dtype"] = e["d"]
                     modinfo[e["m"]]["fp"] = fp(list(mods[e["m"]].state_dict().values()))
+                elif a == "clone":
+                    import copy
+                    mods[e["m2"]] = copy.deepcopy(mods[e["m"]])
+                    modinfo[e["m2"]] = dict(modinfo[e["m"]])
+                    modinfo[e["m2"]]["fp"] = fp(list(mods[e["m2"]].state_dict().values()))
+                elif a == "reload":
+                    src = modinfo[e["m"]]
+                    fresh = POOL[src["c"]]["make"]()
+                    fresh.load_state_dict(mods[e["m"]].state_dict())
+                    mods[e["m2"]] = fresh
+                    dt = "f64" if torch.get_default_dtype() == torch.float64 else "f32"
+                    # values pass through the source's precision: as good as the coarser of the two
+                    built = "f32" if "f32" in (src["built"], src["dtype"], dt) else "f64"
+                    modinfo[e["m2"]] = dict(c=src["c"], built=built, dtype=dt, fp=fp(list(fresh.state_dict().values())))
                 elif a == "call_raises":
                     arg = POOL[modinfo[e["m"]]["c"]]["args"][e["x"]](TD[e["d"]])
                     before = fp(flat(arg))
